@@ -329,10 +329,13 @@ fn app_thread(server: std::sync::Arc<Server>, script: Vec<Action>, tx: mpsc::Sen
         let tx2 = tx.clone();
         let res = std::panic::catch_unwind(std::panic::AssertUnwindSafe(move || {
             let mut end: &'static str = "none";
+            // an upgrade request's body is the rest of the connection: it can be read through
+            // as_reader() before upgrading, or through the stream `upgrade()` returns — same bytes
+            let via_stream = matches!(a.fin, Finish::Upgrade(..)) && a.as_reader == 1 && a.buf % 2 == 0 && !a.zero_read;
             for _ in 1..a.as_reader {
                 let _ = rq.as_reader();
             }
-            if a.as_reader > 0 {
+            if a.as_reader > 0 && !via_stream {
                 let reader = rq.as_reader();
                 if a.zero_read {
                     let _ = reader.read(&mut []);
@@ -358,7 +361,9 @@ fn app_thread(server: std::sync::Arc<Server>, script: Vec<Action>, tx: mpsc::Sen
                     }
                 }
             }
-            let _ = tx2.send(Ev::ReadEnd(end));
+            if !via_stream {
+                let _ = tx2.send(Ev::ReadEnd(end));
+            }
             if a.delay_ms > 0 {
                 std::thread::sleep(Duration::from_millis(a.delay_ms));
             }
@@ -386,6 +391,28 @@ fn app_thread(server: std::sync::Arc<Server>, script: Vec<Action>, tx: mpsc::Sen
                     let proto = String::from_utf8_lossy(p).to_string();
                     let mut s = rq.upgrade(&proto, mk_response(r));
                     do_ops(&mut *s, ops);
+                    if via_stream {
+                        let mut got = 0usize;
+                        let mut buf = vec![0u8; std::cmp::max(1, a.buf)];
+                        while got < a.read_total {
+                            let want = std::cmp::min(buf.len(), a.read_total - got);
+                            match s.read(&mut buf[..want]) {
+                                Ok(0) => {
+                                    end = "eof";
+                                    break;
+                                }
+                                Ok(n) => {
+                                    got += n;
+                                    let _ = tx2.send(Ev::Data(buf[..n].to_vec()));
+                                }
+                                Err(_) => {
+                                    end = "err";
+                                    break;
+                                }
+                            }
+                        }
+                        let _ = tx2.send(Ev::ReadEnd(end));
+                    }
                     true
                 }
             }
